@@ -118,9 +118,10 @@ def cases(tier, seed):
     # glue on enumerated keys (symbolic values) must give the per-key answer, i.e. what factorizing the key whole gives
     Nk = 4 if tier == "quick" else 6
     for first in ((1.0, 2.0) if tier == "quick" else (1.0, 2.0, 3.0, None)):
-        out.append({"kind": "chunked_constructor", "N": Nk, "alphabet": [1.0, 2.0, 3.0, float("nan")], "first": float("nan") if first is None else first,
-                    "sort": True, "max_chunks": 2, "funcs": ["sum", "first"],
-                    "name": f"GroupBy(chunked keys) == whole-key answer/N={Nk} over {{1,2,3,null}} starting with {first}/every 2-chunk layout/sort=True"})
+        for sort_ in ((True,) if first == 1.0 and tier == "quick" else (True, False)):
+            out.append({"kind": "chunked_constructor", "N": Nk, "alphabet": [1.0, 2.0, 3.0, float("nan")], "first": float("nan") if first is None else first,
+                        "sort": sort_, "max_chunks": 2, "funcs": ["sum", "first"],
+                        "name": f"GroupBy(chunked keys) == whole-key answer/N={Nk} over {{1,2,3,null}} starting with {first}/every 2-chunk layout/sort={sort_}"})
     return out
 
 
